@@ -57,6 +57,8 @@ impl<T: AsSubscriberSet + DefinedAt> ReactiveNode for T {
         if let Some(inner) = self.as_subscriber_set() {
             let subs = inner.borrow().read().unwrap().clone();
             for sub in subs {
+                #[cfg(leptos_verif)]
+                crate::verif_yield("signal:mark_sub");
                 sub.mark_dirty();
             }
         }
